@@ -51,6 +51,20 @@ static void one_A(int si, int li, unsigned A, struct res *r, long x) {
             else { r->validated++; r->cls[1]++; }
         }
     }
+    /* a phrase carrying a user feature that is NOT enabled when it is restored: a wrong coin is still a checksum error
+     * (checksum before unsupported), the right coin gives the unsupported status */
+    if (SEEDS[si].features & 7) {
+        polyseed_enable_features(0);
+        for (unsigned k = 0; k < 48; k++) {
+            unsigned B = k < 11 ? (A ^ (1u << k)) : k == 11 ? A : (unsigned)((A * 37 + k * 101) & 2047);
+            polyseed_data *d = NULL; int st = polyseed_decode_explicit(phA, (polyseed_coin)B, lang, &d); r->calls++; r->cases++;
+            if (st == POLYSEED_OK) polyseed_free(d);
+            int want = (B == A) ? POLYSEED_ERR_UNSUPPORTED : POLYSEED_ERR_CHECKSUM;
+            if (st != want) { sprintf(rep, "case %s %u %u %d %u %u", h, SEEDS[si].birthday, SEEDS[si].features, li, A, B); snprintf(key, sizeof key, "c05:wrongcoin-disabled-feature:%s", RL[li].code); res_viol(r, key, rep, "phrase for coin %u with user features %u, none enabled, decoded for coin %u returned %d (expected %d)", A, SEEDS[si].features & 7, B, st, want); break; }
+            r->validated++; r->cls[B == A ? 1 : 0]++;
+        }
+        polyseed_enable_features(7);
+    }
     polyseed_free(s);
     if (ledger_live()) { res_viol(r, "c05:leak", "", "ledger not empty"); ledger_drop_all(); }
 }
